@@ -244,6 +244,11 @@ func (vc *VC) checkPosts(st *State, n ast.Node) {
 	if vc.con == nil {
 		return
 	}
+	// vacuity canary: `false` must NOT be provable at a return of a unit under contract. Covers drop quantified facts (the
+	// solvers answer unknown on them), so a contradiction that needs a quantifier instantiation - two facts about the same
+	// array row, say - is invisible to them; this obligation keeps every assumption and is expected to stay undecided.
+	can := &Oblig{Name: vc.oblName("canary", nil, retTag+":false-not-provable"), Kind: "canary", Unit: vc.unit, NLog: len(vc.log), PC: st.pc, Goal: False, vc: vc, Budget: 2}
+	vc.obls = append(vc.obls, can)
 	pos := vc.fi.Decl.Body.Rbrace
 	env := vc.specEnvAt(st, pos)
 	env.where = "ensures"
